@@ -336,10 +336,24 @@ func (svr *Server) Close() error {
 		svr.lntls.Close()
 	}
 
-	for _, svc := range svr.svcs {
+	// Stop all services at the same time: a service whose processor is blocked
+	// delivering to another connection only gets on once that connection's
+	// buffers are closed too, so stopping them one after the other can wait
+	// forever.
+	svr.mu.Lock()
+	svcs := append([]*service{}, svr.svcs...)
+	svr.mu.Unlock()
+
+	var wg sync.WaitGroup
+	for _, svc := range svcs {
 		log.Tracef("Stopping service: %d", svc.id)
-		svc.stop()
+		wg.Add(1)
+		go func(svc *service) {
+			defer wg.Done()
+			svc.stop()
+		}(svc)
 	}
+	wg.Wait()
 
 	if svr.sessMgr != nil {
 		svr.sessMgr.Close()
